@@ -253,8 +253,12 @@ def run(ctx):
         combos = [(m, n) for m in (120, 140, 170, 250, 0) for n in range(2, len(TAGS) + 1)]
         if not ctx.thorough:
             combos = [(140, 3), (140, 4), (140, 5), (170, 6), (120, 6), (250, 5), (0, 3)] + rng.sample(combos, 3)
-        for multiple, n in combos:
-            tags = TAGS[:n]
+        # (also with operations the device refuses - unknown tag, range beyond the tag - next to the lost reply: an error reply is as much
+        # some particular request's reply as a value is)
+        FAILTAGS = ['SCADA[0-3]', 'NoSuchTag', 'D[2]', 'SCADA[98-105]', 'D[0-9]', 'AlsoMissing[3]']
+        combos = [(m, n, False) for m, n in combos] + [(0, 4, True), (0, 6, True), (250, 6, True)]
+        for multiple, n, failing in combos:
+            tags = (FAILTAGS if failing else TAGS)[:n]
             relay.limit, relay.mode = None, 'cut'
             expect, err = use_connector(relay.port, 'pipeline', multiple, tags)
             nframes = frames_in(relay.stream)[0]
